@@ -84,7 +84,7 @@ def run(run):
                         ci += 1
                         if quick and ci % 3 != 0:
                             continue
-                        sc = scales[ci % len(scales)]
+                        sc = scales[(ci // 3) % len(scales)] if quick else scales[ci % len(scales)]      # (quick keeps every third case: ci % 3 would always pick the first scale)
                         x = (base * sc).reshape(shape)
                         if x.dim() > 1 and x.shape[0] > 1:
                             x = x.clone()
